@@ -1455,6 +1455,7 @@ def c04Line (st : C04St) (ln : Nat) (l : String) : C04St :=
     let st := if st.down.contains x then st.fail ln s!"code of crashed host h{x} ran: {rest}" else st
     let st := match rest with
       | ["spawn_ticker"] => { st with tickers := assocSet st.tickers x (assocGet st.tickers x + 1) }
+      | ["spawn_rt_ticker"] => { st with tickers := assocSet st.tickers x (assocGet st.tickers x + 1) }
       | ["udp_send", _, dst, hex] =>
         (match addrHost dst, msgId hex with
          | some d, some id => if st.down.contains d then { st with lastSend := some (d, id) } else st
